@@ -439,7 +439,7 @@ func descriptorSpecComputed() map[string]func(*layout.Source) *lin.Form {
 func descriptorSpecWhy() map[string]string {
 	return map[string]string{
 		"[].Length": "no descriptor_length element in this instance (empty loop)",
-		"[].LocalTimeOffset.Items[].LocalTimeOffset": "BCD hours/minutes arithmetic (see C15: not decidable statically); the field's 16 bits are specified, its value is not interpreted",
+		"[].LocalTimeOffset.Items[].LocalTimeOffset": "BCD hours/minutes arithmetic (decided by the rules of C15, which this check also runs); the field's 16 bits are specified, its value is not interpreted",
 		"[].LocalTimeOffset.Items[].NextTimeOffset":  "BCD hours/minutes arithmetic (see C15); the field's 16 bits are specified, its value is not interpreted",
 		"[].LocalTimeOffset.Items[].TimeOfChange":    "MJD/BCD calendar arithmetic (see C15); the field's 40 bits are specified, its value is not interpreted",
 		"[].Teletext.Items[].Page":                   "teletext_page_number is two BCD digits converted to a number (arithmetic); the field's 8 bits are specified, its value is not interpreted",
